@@ -92,6 +92,9 @@ var c07progs = map[string]string{
 	"main":         `{ obs(NR, FNR, $0, RT) } END { fin(NR, 0) }`,
 	"getline":      `BEGIN { while ((r = (getline)) > 0) obs(NR, FNR, $0, RT); fin(NR, r) }`,
 	"getline-var":  `BEGIN { while ((r = (getline line)) > 0) obs(NR, FNR, line, RT); fin(NR, r) }`,
+	// a main-loop record is current while 'getline line' takes the next one: $0 is looked at only
+	// afterwards and must still be the first record's own text (the same record sequence as "main")
+	"main-getvar": `{ rt0 = RT; n0 = NR; f0 = FNR; r = (getline line); obs(n0, f0, $0, rt0); if (r > 0) obs(NR, FNR, line, RT) } END { fin(NR, 0) }`,
 	"getline-file": `BEGIN { while ((r = (getline line < "f0")) > 0) obs(NR, FNR, line, RT); fin(NR, r) }`,
 	"getline-cmd":  `BEGIN { while ((r = (cmd | getline line)) > 0) obs(NR, FNR, line, RT); fin(NR, r) }`,
 	// a history: f0 is read to its end and closed, then f0 and f1 are read alternately (two
@@ -358,6 +361,12 @@ func (c07Engine) Gen(r *core.Rand, tier string, i int) any {
 		sc.Mode, sc.Where = "getline", core.Pick(r, []string{"stdin", "file"})
 	case m < 84:
 		sc.Mode, sc.Where = "getline-var", core.Pick(r, []string{"stdin", "file"})
+		if r.Chance(1, 3) {
+			sc.Mode = "main-getvar"
+			for k := range sc.Srcs {
+				sc.Srcs[k].D.HasErr = false // (what a rule does after getline returned -1 is not the point here)
+			}
+		}
 	case m < 90:
 		sc.Mode, sc.Where = "getline-file", ""
 	case m < 97:
@@ -886,7 +895,7 @@ func c07Check(sc *c07Scn, datas [][]byte, ds []core.Delivery, obs, base *c07Obs,
 		}
 		refs = append(refs, ref)
 	}
-	usesNR := sc.Mode == "main" || sc.Mode == "getline" || sc.Mode == "getline-var"
+	usesNR := sc.Mode == "main" || sc.Mode == "getline" || sc.Mode == "getline-var" || sc.Mode == "main-getvar"
 
 	if hasErr {
 		return c07CheckErr(sc, datas, ds, obs, refs, desc, usesNR)
